@@ -33,6 +33,7 @@ func C04(tier string) int {
 					Name: fmt.Sprintf("consumers=%d program_words=%d ticks=%d mode=%s order=%d delays<=%d", f.k, f.words, f.T, mname, order, f.delay),
 					Func: "zzC04", Args: []Arg{I(f.k), I(f.words), I(f.T), I(mode), I(f.delay)},
 					Setup: func(in *symgo.Interp) {
+						in.MaxUnion = 64 // the deferred-instruction maps gain one alternative per tick
 						delayHooks(in)
 						// goroutine ids: 1 = EmuDriverDispatcher, 2.. = processors in creation order
 						var o []int
